@@ -5,6 +5,7 @@ pub mod c02;
 pub mod c04;
 pub mod c08;
 pub mod c09;
+pub mod c11;
 pub mod c12;
 pub mod c13;
 pub mod c20;
@@ -16,6 +17,7 @@ pub fn dispatch(prop: &str, ctx: &Ctx) -> ! {
         "C04" => c04::run(ctx),
         "C08" => c08::run(ctx),
         "C09" => c09::run(ctx),
+        "C11" => c11::run(ctx),
         "C12" => c12::run(ctx),
         "C13" => c13::run(ctx),
         "C20" => c20::run(ctx),
